@@ -177,6 +177,10 @@ pub struct RunOut {
     pub wall_ms: u64,
 }
 
+/// how late an attempt may be before the (re-run-confirmed) "too long" verdict: well below the difference between two
+/// consecutive back-off steps of the scripts used here, far above loopback latencies
+const UPPER_SLACK_MS: u64 = 300;
+
 fn expected_delay(k: u32, max: u64) -> u64 {
     (200u64.saturating_mul(1u64 << k.min(30))).min(max)
 }
@@ -372,7 +376,7 @@ pub fn judge(c: &ClientCase, r: &RunOut) -> Result<Vec<&'static str>, (String, S
                         prev == Attempt::AcceptAndStall,
                     ));
                 }
-                if gap > want + 700 {
+                if gap > want + UPPER_SLACK_MS {
                     return Err((
                         "c19-backoff-too-long".into(),
                         format!("attempt {i} arrived {gap} ms after the failure of attempt {} ({prev:?}); expected about {want} ms (consecutive failure #{k}, max_retry_interval {})", i - 1, c.max_retry_interval),
@@ -550,8 +554,8 @@ fn client_case() -> impl Strategy<Value = ClientCase> {
 
 pub fn run(ctx: &Ctx, rep: &mut Report) {
     rep.rule = "G1: Backoff::new(initial,max,mult,max_count) over all small tuples (initial,max in 0..6 units, mult 0..3, max_count 0..4) x all advance/reset sequences of length <= 8 (exhaustive) + random larger, against the closed form min(initial*mult^k, max). \
-                G2: the real client (client_main_inner, Unix-socket TCP remote) against a scripted fake server on loopback: per connection attempt {accept and drop, accept and stall the upgrade, 403, serve then orderly Close after d ms, serve then abrupt drop after d ms, handshake then silence, handshake then silence then drop after d ms, healthy}, max_retry_count 0..7, max_retry_interval 200..1000 ms, \
-                handshake/channel timeout 1 s, a local connection opened at a generated moment. Oracle: gap between a visible failure and the next attempt >= the reference delay (hard) and <= delay + 0.7 s (confirmed by re-run), shortest delay again after any success, a new attempt after orderly Close / drop / stall, exactly max_retry_count+1 attempts then MaxRetryCountReached (never for 0), immediate end on the non-retryable answer, \
+                G2: the real client (client_main_inner, Unix-socket TCP remote) against a scripted fake server on loopback: per connection attempt {accept and drop, accept and stall the upgrade, 403, serve then orderly Close after d ms, serve then abrupt drop after d ms, handshake then silence, handshake then silence then drop after d ms, healthy}, max_retry_count 0..7, max_retry_interval 200..1000 ms (1600/3200 in the directed reset-after-success family), \
+                handshake/channel timeout 1 s, a local connection opened at a generated moment. Oracle: gap between a visible failure and the next attempt >= the reference delay (hard) and <= delay + 0.3 s (confirmed by re-run), shortest delay again after any success, a new attempt after orderly Close / drop / stall, exactly max_retry_count+1 attempts then MaxRetryCountReached (never for 0), immediate end on the non-retryable answer, \
                 the local connection is echoed through the next successful connection. Non-trivial = a script with >= 2 failures and a success, or a local connection made while disconnected. Distinct = distinct case value."
         .into();
     rep.assumptions = vec![
@@ -562,4 +566,18 @@ pub fn run(ctx: &Ctx, rep: &mut Report) {
     vf_pure::backoff::sections(ctx, rep);
     ctx.max_shrink_iters.store(12, std::sync::atomic::Ordering::Relaxed);
     ctx.prop(rep, "client", ctx.tier.pick(64, 1_200), 8, client_case, check);
+    // directed: three failures (200, 400, 800 ms), a served connection that is then lost, and the delay before the next
+    // attempt, which must be the shortest one again; the limit is high enough for the steps to differ by more than the slack
+    ctx.enumerate(
+        rep,
+        "reset-after-success",
+        ctx.tier.pick(4, 16),
+        2,
+        |i| {
+            let served = if i % 2 == 0 { Attempt::ServeThenClose(40 + 20 * (i as u16 / 4)) } else { Attempt::ServeThenDrop(40 + 20 * (i as u16 / 4)) };
+            let mri = if (i / 2) % 2 == 0 { 3200 } else { 1600 };
+            ClientCase { script: vec![Attempt::AcceptAndDrop, Attempt::AcceptAndDrop, Attempt::AcceptAndDrop, served, Attempt::AcceptAndDrop, Attempt::Healthy], max_retry_count: 0, max_retry_interval: mri, local_after_attempt: Some(4), local_delay_ms: 10 }
+        },
+        check,
+    );
 }
